@@ -806,6 +806,14 @@ silent("c18-s-tracer-root-guard-assert", "C18", "funsor/ops/tracer.py",
        "    if ids[id(root)] != len(ids) - 1:\n        raise ValueError(\"Function returns an input or constant unchanged\")\n", "    assert ids[id(root)] == len(ids) - 1, \"Function returns an input or constant unchanged\"\n")
 
 
+fire("c08-tensor-contraction-passes-absent-vars", "C08", CNF,
+     "    absent = reduced_vars - frozenset().union(*(term.input_vars for term in terms))\n    result = _eager_contract_tensors(reduced_vars - absent, terms, backend=backend)\n    return result.reduce(red_op, absent) if absent else result\n",
+     "    return _eager_contract_tensors(reduced_vars, terms, backend=backend)\n", "R08.11", "eager_contraction_tensor", count=2, nth=0)
+fire("c08-tensor-contraction-absent-vars-not-reduced", "C08", CNF,
+     "    return result.reduce(red_op, absent) if absent else result\n", "    return result\n", "R08.11", "eager_contraction_tensor", count=2, nth=1)
+rename("C08", CNF, "_eager_contract_tensors")
+
+
 # ===== derived variants: must stay at the END of this file (they enumerate every rename() variant above) =====
 # `if c: A else: B` -> `if not c: B else: A` in the anchor functions (behaviour-preserving)
 def invert(prop, file, qual):
